@@ -594,6 +594,137 @@ def strip(s):
     return s
 
 
+# ---- C18: the same definitions as input of the round trip spec -> models -> scanned spec ----------
+
+def go_lit(v):
+    if isinstance(v, bool):
+        return "true" if v else "false"
+    if isinstance(v, int):
+        return "int64(%d)" % v
+    if isinstance(v, float):
+        return "float64(%r)" % v
+    return json.dumps(v)
+
+
+def go_schema(s, ptr=False):
+    L = []
+    if "$ref" in s:
+        L.append("s.Ref = spec.MustCreateRef(%s)" % json.dumps(s["$ref"]))
+    if "type" in s:
+        L.append("s.Type = spec.StringOrArray{%s}" % json.dumps(s["type"]))
+    if "format" in s:
+        L.append("s.Format = %s" % json.dumps(s["format"]))
+    for k, f in (("minimum", "Minimum"), ("maximum", "Maximum"), ("multipleOf", "MultipleOf")):
+        if k in s:
+            L.append("s.%s = vF(%r)" % (f, float(s[k])))
+    for k, f in (("exclusiveMinimum", "ExclusiveMinimum"), ("exclusiveMaximum", "ExclusiveMaximum"), ("uniqueItems", "UniqueItems")):
+        if s.get(k):
+            L.append("s.%s = true" % f)
+    for k, f in (("minLength", "MinLength"), ("maxLength", "MaxLength"), ("minItems", "MinItems"), ("maxItems", "MaxItems")):
+        if k in s:
+            L.append("s.%s = vI(%d)" % (f, s[k]))
+    if "pattern" in s:
+        L.append("s.Pattern = %s" % json.dumps(s["pattern"]))
+    if s.get("readOnly"):
+        L.append("s.ReadOnly = true")
+    if "enum" in s:
+        L.append("s.Enum = []interface{}{%s}" % ", ".join(go_lit(e) for e in s["enum"]))
+    if "required" in s:
+        L.append("s.Required = []string{%s}" % ", ".join(json.dumps(r) for r in s["required"]))
+    if "properties" in s:
+        L.append("s.Properties = map[string]spec.Schema{%s}" % ", ".join("%s: %s" % (json.dumps(k), go_schema(v)) for k, v in sorted(s["properties"].items())))
+    if "items" in s:
+        L.append("s.Items = &spec.SchemaOrArray{Schema: %s}" % go_schema(s["items"], True))
+    if "additionalProperties" in s:
+        L.append("s.AdditionalProperties = &spec.SchemaOrBool{Allows: true, Schema: %s}" % go_schema(s["additionalProperties"], True))
+    if "allOf" in s:
+        L.append("s.AllOf = []spec.Schema{%s}" % ", ".join(go_schema(m) for m in s["allOf"]))
+    body = "; ".join(L)
+    return ("vSP" if ptr else "vS") + "(func(s *spec.Schema) { %s })" % body
+
+
+def snake(name):
+    out = ""
+    for i, ch in enumerate(name):
+        if ch.isupper() and i > 0 and not name[i - 1].isupper() and not name[i - 1].isdigit():
+            out += "_"
+        elif ch.isdigit() and i > 0 and name[i - 1].isalpha() and False:
+            out += "_"
+        out += ch.lower()
+    return out
+
+
+def refs_of(s, acc):
+    if isinstance(s, dict):
+        if "$ref" in s:
+            n = s["$ref"].split("/")[-1]
+            if n not in acc:
+                acc.append(n)
+                refs_of(DEFS[n], acc)
+        for v in s.values():
+            refs_of(v, acc)
+    elif isinstance(s, list):
+        for v in s:
+            refs_of(v, acc)
+
+
+RT_ONLY = []  # definitions that only take part in the C18 round trip (no symbolic validator harness)
+
+
+def add_rt_case(family, desc, name, schema):
+    add_def(name, schema)
+    c = Case(name, family, desc)
+    RT_ONLY.append(c)
+
+
+def build_rt():
+    add_rt_case("roundtrip", "property required and readOnly", "RtReadOnly", {"type": "object", "required": ["id", "name"], "properties": {
+        "id": {"type": "integer", "format": "int64", "readOnly": True}, "name": {"type": "string"}, "note": {"type": "string", "readOnly": True}}})
+    add_rt_case("roundtrip", "properties named like struct tag options", "RtTagWords", {"type": "object", "properties": {
+        "string": {"type": "integer", "format": "int32"}, "omitempty": {"type": "boolean"}}})  # a property named "-" is the known C16-S2b
+    add_rt_case("roundtrip", "string enums with characters JSON escapes", "RtEnumOps", {"type": "object", "properties": {
+        # (values made of symbols only would get colliding constant names: known C01-P3)
+        "op": {"type": "string", "enum": ["<a", "<=b", "==c", ">d"]}, "join": {"type": "string", "enum": ["x&&y", "p||q"]}, "q": {"type": "string", "enum": ["a\"b", "back\\slash"]}}})
+    uuid = add_def("UUID", {"type": "string", "minLength": 1})
+    add_rt_case("roundtrip", "a definition named UUID referenced from property, items and map values", "RtNode", {"type": "object", "properties": {
+        "id": uuid, "children": {"type": "array", "items": uuid}, "byName": {"type": "object", "additionalProperties": uuid}}})
+    add_rt_case("roundtrip", "bounds on properties of every numeric type", "RtBounds", {"type": "object", "properties": {
+        "a": {"type": "integer", "format": "int32", "minimum": -5, "maximum": 5, "exclusiveMaximum": True},
+        "b": {"type": "number", "format": "float", "minimum": 0.5, "exclusiveMinimum": True},
+        "c": {"type": "number", "maximum": 1000},  # larger bounds are printed in exponent form: known C18-S3a
+        "d": {"type": "string", "minLength": 0, "maxLength": 12, "pattern": "^[a-z]+$"},
+        "e": {"type": "array", "minItems": 1, "maxItems": 3, "uniqueItems": True, "items": {"type": "string"}}}})
+
+
+def write_c18():
+    out = os.path.join(ROOT, "harness", "codescan", "zz_verif_c18cases.go")
+    L = ["//go:build verif", "", "// Code generated by tools/mkgen_models.py; DO NOT EDIT.", "", "package codescan", "",
+         'import "github.com/go-openapi/spec"', "",
+         "// the definitions of harness/gen/c02/swagger.json (input of the real generator), as Go values", "",
+         "type vRTCase struct {", "\tname, family, desc string", "\tdefs        []string // the definition and everything it refers to", "}", "",
+         "var vRTCases = []vRTCase{"]
+    for c in CASES + RT_ONLY:
+        acc = [c.name]
+        refs_of(DEFS[c.name], acc)
+        L.append("\t{%s, %s, %s, []string{%s}}," % (json.dumps(c.name), json.dumps(c.family), json.dumps(c.desc), ", ".join(json.dumps(n) for n in acc)))
+    L.append("}")
+    L.append("")
+    L.append("func vRTInput(name string) spec.Schema {")
+    L.append("\tswitch name {")
+    for n, s in DEFS.items():
+        L.append("\tcase %s:" % json.dumps(n))
+        L.append("\t\treturn %s" % go_schema(strip(s)))
+    L.append("\t}")
+    L.append("\treturn spec.Schema{}")
+    L.append("}")
+    L.append("")
+    with open(out, "w") as f:
+        f.write("\n".join(L))
+    print("wrote", out)
+
+
 if __name__ == "__main__":
     build()
+    build_rt()
     write()
+    write_c18()
